@@ -6,6 +6,7 @@ import (
 	"go/types"
 	"os"
 	"path/filepath"
+	"regexp"
 	"strconv"
 	"strings"
 	"time"
@@ -67,15 +68,10 @@ func (cr *checkRun) replay(o *Obl, r SolveResult) replayResult {
 		return fail("solver returned no model")
 	}
 	pkgName := fn.Pkg.Pkg.Name()
-	lc := &litCtx{pkg: pkgName, strVals: map[string]string{}, ifaceTypes: enc.R.ifaceTypes}
-	cr.fillStrings(o, r, lc)
+	bl := &builder{e: enc, m: r.Model, pkg: pkgName}
 	var lits []string
 	for i, in := range enc.inputs {
-		v, ok := r.Model[in]
-		if !ok {
-			return fail("model lacks input " + in)
-		}
-		l, err := lc.goLiteral(v, enc.inputTypes[i])
+		l, err := bl.build(in, enc.inputTypes[i], 0)
 		if err != nil {
 			return fail(fmt.Sprintf("input %s: %v", in, err))
 		}
@@ -85,6 +81,9 @@ func (cr *checkRun) replay(o *Obl, r SolveResult) replayResult {
 	// call expression
 	var b strings.Builder
 	args := []string{}
+	for _, st := range bl.pre {
+		fmt.Fprintf(&b, "\t\t%s\n", st)
+	}
 	for i, l := range lits {
 		fmt.Fprintf(&b, "\t\tin%d := %s\n", i, l)
 		args = append(args, fmt.Sprintf("in%d", i))
@@ -181,6 +180,9 @@ func (cr *checkRun) evalPostOnObserved(o *Obl, r SolveResult, oc outcome) (bool,
 		for _, m := range enc0.R.ifaceOrder {
 			enc.R.ifaceCtor(enc0.R.ifaceTypes[m])
 		}
+		for _, lit := range enc0.R.strOrder {
+			enc.R.strConst(lit)
+		}
 		fn := enc.Fn
 		res := fn.Signature.Results()
 		if len(oc.Results) != res.Len() {
@@ -206,8 +208,17 @@ func (cr *checkRun) evalPostOnObserved(o *Obl, r SolveResult, oc outcome) (bool,
 		bindResults(extra, fn, rv)
 		c := f.evalContractBool(cl, f.curHeap, extra, nil)
 		var eqs []string
-		for _, in := range enc.inputs {
-			eqs = append(eqs, fmt.Sprintf("(assert (= %s %s))", in, r.Model[in]))
+		for _, t := range enc0.probeTerms() {
+			v := r.Model[t]
+			if v == "" || strings.Contains(v, "!val!") || strings.Contains(v, "@") || strings.HasPrefix(t, "in!") && strings.Contains(v, "(") && !strings.HasPrefix(v, "(fp") && !strings.HasPrefix(v, "(_") && !strings.HasPrefix(v, "(-") {
+				continue
+			}
+			if m := heapRefRe.FindStringSubmatch(t); m != nil {
+				if _, ok := enc.R.heapDecl[m[1]]; !ok {
+					continue
+				}
+			}
+			eqs = append(eqs, fmt.Sprintf("(assert (= %s %s))", t, v))
 		}
 		q := &Obl{Name: o.Name + "!eval", PC: "true", Cond: c, NDecls: len(enc.decls), enc: enc}
 		text := q.query(false)
@@ -227,64 +238,11 @@ func (cr *checkRun) evalPostOnObserved(o *Obl, r SolveResult, oc outcome) (bool,
 	return ok, rerr
 }
 
-// fillStrings asks the solver for the bytes of string-typed inputs of the model.
-func (cr *checkRun) fillStrings(o *Obl, r SolveResult, lc *litCtx) {
-	enc := o.enc
-	var strIns []string
-	for i, in := range enc.inputs {
-		if enc.R.sortOf(enc.inputTypes[i]) == "Str" {
-			strIns = append(strIns, in)
-		}
-	}
-	if len(strIns) == 0 {
-		return
-	}
-	// second query: lengths and the first 48 bytes
-	var gv []string
-	for _, in := range strIns {
-		gv = append(gv, fmt.Sprintf("(slen %s)", in))
-		for k := 0; k < 48; k++ {
-			gv = append(gv, fmt.Sprintf("(sbyte %s %s)", in, bvLit(int64(k), 64)))
-		}
-	}
-	text := o.query(false) + "(get-value (" + strings.Join(gv, " ") + "))\n"
-	file := filepath.Join(cr.work, fmt.Sprintf("str-%s.smt2", mangle(o.Name)))
-	os.WriteFile(file, []byte(text), 0o644)
-	var sp solverSpec
-	for _, s := range solvers {
-		if s.name == r.Solver {
-			sp = s
-		}
-	}
-	if sp.name == "" {
-		sp = solvers[0]
-	}
-	st, out, _ := runSolver(contextBackground(), sp, file, 30*time.Second)
-	if st != "sat" {
-		return
-	}
-	m := parseModel(out)
-	for _, in := range strIns {
-		lv, _, ok := parseBV(m[fmt.Sprintf("(slen %s)", in)])
-		if !ok || lv.Int64() > 48 || lv.Int64() < 0 {
-			continue
-		}
-		var bs []byte
-		for k := int64(0); k < lv.Int64(); k++ {
-			bv, _, ok := parseBV(m[fmt.Sprintf("(sbyte %s %s)", in, bvLit(k, 64))])
-			if !ok {
-				bs = nil
-				break
-			}
-			bs = append(bs, byte(bv.Uint64()))
-		}
-		lc.strVals[r.Model[in]] = strconv.Quote(string(bs))
-	}
-}
-
 // ---------------------------------------------------------------------------
 // known findings: witnesses through the public API
 // ---------------------------------------------------------------------------
+
+var heapRefRe = regexp.MustCompile(`\(select \(select ([^ ()]+) `)
 
 var knownCache map[string]string
 
